@@ -91,6 +91,12 @@ def check_pgpy_signature(env, suite, label, signer_key, sig, subj_obj, msubj, ve
         ctx.fail(suite, 'PGPy does not verify its own signature after export/import', dict(case, impl=repr(o)))
     if bytes(sig2) != raw:
         ctx.fail(suite, 'signature does not re-export identically', case)
+    # 6. a copy of the re-imported signature (what PGPKey.pubkey / copy.copy of keys, uids, messages make) behaves the same
+    import copy as _copy
+    sig3 = _copy.copy(sig2)
+    o3 = outcome(lambda: bool(vk.verify(subj_obj, sig3)))
+    if o3 != ('ok', True) or bytes(sig3) != raw:
+        ctx.fail(suite, 'a copy of the re-imported signature does not verify / export identically', dict(case, impl=repr(o3)))
 
 
 def pgpy_signatures(env, keyname, halgs):
@@ -147,6 +153,17 @@ def pgpy_signatures(env, keyname, halgs):
             n += 1
             yield ('3pcert-%x-%d' % (lvl, i), k, k.certify(ouid, level=lvl, hash=h, created=t(n), **o), ouid,
                    subject_octets(env, 'uid', keyname, other=('ed25519b' if keyname != 'ed25519b' else 'ed25519')), pub, int(lvl))
+    # user ids whose packet needs a two-octet / five-octet length (192.. and 8384.. octets)
+    for ln in (191, 192, 300, 9000):
+        n += 1
+        kl = get(keyname)
+        lu = pgpy.PGPUID.new('L' * (ln - 10), comment='', email='l@x.example')
+        kl.add_uid(lu, usage={F.Sign}, created=t(n))
+        luid = [u for u in kl.userids if u.name.startswith('LLLL')][0]
+        sg = kl.certify(luid, level=ST.Positive_Cert, hash=h, created=t(n))
+        comp = S.exported_components(kl)
+        ub = [u for u in comp['uids'] if u.startswith(b'LLLL')][0]
+        yield ('longuid%d' % ln, kl, sg, luid, ('uid', comp['primary'], ub), kl.pubkey, 0x13)
     n += 1
     yield ('attest', k, k.certify(uid, level=ST.Attestation, hash=h, created=t(n), attested_certifications=[]), uid,
            subject_octets(env, 'uid', keyname), pub, 0x16)
